@@ -283,6 +283,9 @@ func TransCtrlSeq(str string, ansi bool) (dst string, change bool) {
 				}
 				return "" // disable, remove the § code
 			}
+			if code == 'k' && !ansi {
+				return "" // §k (obfuscated) has no ANSI equivalent, but it is still a § code
+			}
 			return str // not a § code
 		},
 	)
